@@ -26,22 +26,41 @@ from tools.gen import libgen
 LEVEL = "proof"
 MANIFEST = dict(
     category="proof",
-    text="Lean 4 theorems: for every list of (argument, buf_args) the C prototype classes built as in "
-         "Wrapc.build_proto_list and the Fortran dummy classes built as in Wrapf.build_arg_list_interface have the same "
-         "length and are pairwise interoperable (Fortran 2018 18.3; induction from a per-buf_arg lemma), given per-argument "
-         "side conditions that are themselves discharged for every registered type by a table theorem; table theorems over "
-         "regenerated data: the wrapc and wrapf statement lookup paths reach the same entry for all 22,680 combinations per "
-         "language, every typemap row names a Fortran kind of the class and size of its C type, capsule_data / array_context "
-         "/ class capsule struct pairs and the helper interfaces are field-wise interoperable, the two ShroudTypeDefines "
-         "tables agree, every c_arg_decl / f_arg_decl pair is interoperable. The model is tied to the code per call of the "
-         "two builders; an implementation-only oracle checks every emitted bind(C) interface against the emitted C.",
+    text="Lean 4 theorems (32, no _partial statements). "
+         "(1) Unbounded: for every list of (argument, buf_args) the C prototype classes built as in Wrapc.build_proto_list and the "
+         "Fortran dummy classes built as in Wrapf.build_arg_list_interface have the same length, the same number of dummy names, and "
+         "are pairwise interoperable (Fortran 2018 18.3; list induction from a per-buf_arg lemma) under per-argument side conditions "
+         "(itemOK) whose necessity is shown by decide witnesses (+value on a pointer; a CFI entry reached without a descriptor); for "
+         "every parameter list of a callback the abstract interface (dump_abstract_interfaces) is pairwise interoperable with the C "
+         "function-pointer parameter list and its result; for every member list of a user struct the C copy (Wrapc.wrap_struct) and the "
+         "bind(C) derived type (Wrapf.wrap_struct) are field-wise interoperable. "
+         "(2) Table theorems (decide +kernel) over data regenerated from the working tree on every run: the wrapc and wrapf statement "
+         "lookup paths reach the same entry for all 22,680 (sgroup, spointer, intent, suffix, deref, cdesc, specialize) combinations per "
+         "language; result paths (ctor/dtor/bare vs result) and result-that-becomes-an-argument paths (scalar vs pointer) reach entries "
+         "with the same interface signature; every one of the 83 statement entries uses only buf_arg kinds both builders handle, carries "
+         "exactly one c_arg_decl / f_arg_decl pair iff it asks for arg_decl, and forces a return type only in ways Fortran declares "
+         "consistently; all 29 declaration-template pairs and the f_result_decl are interoperable; all 27 typemap rows name a Fortran "
+         "type/kind of the class and size of the C type (and discharge the side conditions of (1) for arguments and struct members); "
+         "capsule_data / array_context / class-capsule struct pairs and 22 helper interfaces are interoperable; the two "
+         "ShroudTypeDefines tables define the same name -> value map.",
     design="3 C04",
-    note="Trusted: Lean kernel; LP64 size tables and the C / Fortran declaration parsers of tools/interop_parse.py "
-         "(validated against gcc sizeof, gfortran c_sizeof and gfortran -fc-prototypes in the thorough tier); translator "
-         "template classification; signedness is not distinguished (Fortran has no unsigned kinds); a union of pointers is "
-         "treated as one pointer member. The per-call tie validates the model on corpus + generated libraries only.",
+    note="Ties: (T) tools/extract_interop.py recomputes all tables with the real lookup_fc_stmts / typemaps / helper texts and fails "
+         "loudly on a template it cannot classify; (D) every call of build_proto_list / build_arg_list_interface and every wrap_struct on "
+         "the whole upstream corpus + generated libraries is observed in-process and the declarations it appends are compared with the "
+         "model (driver drv_interop); the two call sequences (argument, buf_args, entry) are compared with each other. The callback model "
+         "has no per-call tie (oracle only). Oracle (implementation only, Python table independent of the model): every bind(C) name is "
+         "defined by a generated prototype/definition or by the YAML declaration (language c), same argument count, names not permuted, "
+         "pairwise interoperable arguments and result, callbacks against their abstract interface, struct / derived-type pairs field by "
+         "field (typedefs and structs declared in the YAML are resolved), emitted type-code tables; thorough: gfortran -fc-prototypes of "
+         "every module (dependency order, specification part alone when a wrapper body does not compile) against the real prototypes, "
+         "_Static_assert(sizeof/offsetof) against gfortran's c_sizeof / c_loc offsets, LP64 tables against gcc sizeof and gfortran "
+         "storage_size. Trusted / modelled-not-verified: Lean kernel; LP64 size tables and the C and Fortran declaration parsers of "
+         "tools/interop_parse.py; the translator's template classification; the hand-written models; signedness is not distinguished; a "
+         "union of pointers counts as one pointer member; void * accepts any dummy passed by reference; gfortran 12's -fc-prototypes "
+         "shows descriptor dummies as T * and gives up on type(*) / dummy procedures (those pairs rest on the Python table); types that "
+         "exist only in another library's headers stay unresolved and are listed in the evidence.",
     technique="Lean 4 proof (list induction, decide +kernel over regenerated tables) + per-call differential correspondence + "
-              "prototype/interface oracle + compiler cross-check",
+              "prototype/interface/struct oracle + compiler cross-check (gfortran -fc-prototypes, _Static_assert)",
 )
 MODULES = ["ShroudVerif.Props.C04"]
 THEOREMS = {
@@ -55,11 +74,19 @@ THEOREMS = {
         "Shroud.Interop.callback_length",
         "Shroud.Interop.callback_result_interop",
         "Shroud.Interop.callback_bindc_only_not_interop",
+        "Shroud.Interop.struct_fields_interop",
+        "Shroud.Interop.struct_fields_length",
+        "Shroud.Interop.struct_member_old_not_interop",
+        "Shroud.Interop.protoItem_length",
+        "Shroud.Interop.ifaceItem_length",
+        "Shroud.Interop.typemap_members_ok",
+        "Shroud.Interop.all_entries_ok",
         "Shroud.Interop.value_on_pointer_not_interop",
         "Shroud.Interop.cfi_without_descriptor_not_interop",
         "Shroud.Interop.lookup_paths_agree_c",
         "Shroud.Interop.lookup_paths_agree_cxx",
         "Shroud.Interop.result_paths_agree",
+        "Shroud.Interop.result_as_arg_paths_agree",
         "Shroud.Interop.result_entries_ok",
         "Shroud.Interop.typemap_rows_ok",
         "Shroud.Interop.typemap_args_ok",
@@ -89,6 +116,7 @@ class Recorder:
         self.c = {}      # id(node) -> record
         self.f = {}
         self.order = []
+        self.structs = []
         self.nodes = {}
         self._cur_c = None
         self._cur_f = None
@@ -151,6 +179,13 @@ class Recorder:
                                    "f_c_dimension": getattr(fmt, "f_c_dimension", "")})
             return res
 
+        o_ws = wrapf.Wrapf.wrap_struct
+        self._saved_ws = o_ws
+
+        def wrap_struct(self, node, fileinfo):
+            rec.structs.append(node)
+            return o_ws(self, node, fileinfo)
+        wrapf.Wrapf.wrap_struct = wrap_struct
         wrapc.Wrapc.wrap_function, wrapc.Wrapc.build_proto_list = wrap_function, build_proto_list
         wrapf.Wrapf.wrap_function_interface, wrapf.Wrapf.build_arg_list_interface = wrap_function_interface, build_arg_list_interface
         return self
@@ -159,6 +194,7 @@ class Recorder:
         W, o_wf, o_bp, F, o_wi, o_bi = self._saved
         W.wrap_function, W.build_proto_list = o_wf, o_bp
         F.wrap_function_interface, F.build_arg_list_interface = o_wi, o_bi
+        F.wrap_struct = self._saved_ws
         return False
 
 
@@ -312,13 +348,22 @@ def tie_library(ctx, res, replay, drv_lines, drv_meta):
         if fr is None:
             continue       # no Fortran interface for this C wrapper (wrap.c without interface): nothing to pair
         ctx.count(1)
-        cseq = [(id(c["ast"]), tuple(c["bufs"])) for c in cr["calls"] if c["bufs"]]
-        fseq = [(id(c["ast"]), tuple(c["bufs"])) for c in fr["calls"] if c["bufs"]]
+        def ename(c):
+            # a result that became an argument: wrapc and wrapf use different spointers (table theorem
+            # result_as_arg_paths_agree): compare what the builders read from the entry, not its name
+            if c["ast"].metaattrs.get("is_result"):
+                b = c["blk"]
+                return repr((list(b.buf_args), list(b.buf_extra), list(b.c_arg_decl), list(b.f_arg_decl)))
+            return getattr(c["blk"], "name", "?")
+        # same argument, same buf_args; same statement entry for arguments (for the function result wrapc may use the
+        # ctor / dtor / bare entry where wrapf uses `result`: table theorem result_paths_agree)
+        cseq = [(id(c["ast"]), tuple(c["bufs"]), ename(c) if c["ast"] is not node.ast else "") for c in cr["calls"] if c["bufs"]]
+        fseq = [(id(c["ast"]), tuple(c["bufs"]), ename(c) if c["ast"] is not node.ast else "") for c in fr["calls"] if c["bufs"]]
         meta = {"lib": res["tag"], "function": fname, "replay": dict(replay, function=fname), "same_seq": cseq == fseq}
         if cseq != fseq:
             meta["detail"] = "wrapc and wrapf used different (argument, buf_args) sequences: C %s, Fortran %s" % (
-                [(c["ast"].name, c["bufs"]) for c in cr["calls"] if c["bufs"]],
-                [(c["ast"].name, c["bufs"]) for c in fr["calls"] if c["bufs"]])
+                [(c["ast"].name, c["bufs"], ename(c)) for c in cr["calls"] if c["bufs"]],
+                [(c["ast"].name, c["bufs"], ename(c)) for c in fr["calls"] if c["bufs"]])
         ccalls = [c for c in cr["calls"] if c["bufs"]]
         fcalls = [c for c in fr["calls"] if c["bufs"]]
         try:
@@ -345,9 +390,68 @@ def tie_library(ctx, res, replay, drv_lines, drv_meta):
         drv_lines.append("fn %d %s" % (this, ";".join(items) if items else "~"))
 
 
+def tie_structs(ctx, res, replay, drv_lines, drv_meta):
+    """Model structC/structF for the member list of every wrapped struct vs the generated C struct / derived type."""
+    from shroud import todict
+    rec, env, d = res["rec"], res["env"], res["outdir"]
+    if not rec.structs:
+        return
+    protos, defs, structs, defines, uprotos, modules = read_outputs(d)
+    ftypes = {}
+    for fn, (ifaces, types, params) in modules.items():
+        ftypes.update(types)
+    for node in rec.structs:
+        tm = node.typemap
+        mems, okm = [], True
+        for var in node.variables:
+            ast = var.ast
+            vt = ast.typemap
+            alen = 0
+            if ast.array:
+                alen = ip._extent([todict.print_node(x) for x in ast.array])
+                if alen is None:
+                    okm = False
+                    break
+            try:
+                cb = cbase_codes(vt.c_type, env)
+                fb = fbase_codes(vt.f_c_type or vt.f_type, env)
+            except ip.ParseError:
+                okm = False
+                break
+            if cb is None or fb is None:
+                okm = False
+                break
+            mems.append("%d,%d,%d,%d,%d,%d" % (cb[0], 1 if cb[0] in (4, 5) else cb[1], fb[0], 1 if fb[0] == 5 else fb[1], ast.is_indirect(), alen))
+        if not okm:
+            continue
+        meta = {"kind": "struct", "lib": res["tag"], "function": "struct " + node.name, "replay": dict(replay, struct=node.name)}
+        ft = ftypes.get((tm.f_derived_type or "").lower())
+        cs = structs.get(tm.c_type)
+        if ft is None or ft["error"]:
+            meta["error"] = "derived type %s not found/parsable in the generated module" % tm.f_derived_type
+        else:
+            meta["fact"] = ["%s.%d" % (f_code(dcl, env).rsplit(".", 2)[0], ip._extent(dcl["extent"].split(",")) or 0 if dcl["shape"] == "array" else 0)
+                            for _n, dcl in ft["fields"]]
+            meta["cact"] = None
+            if isinstance(cs, list) and node.wrap.c and res.get("language_cxx"):
+                meta["cact"] = ["%s.%d" % (c_code(dict(f, array=None), env), ip._extent(f["array"]) or 0 if f.get("array") else 0) for f in cs]
+        ctx.count(1)
+        ctx.nontrivial(("struct-members", len(mems)))
+        drv_meta.append(meta)
+        drv_lines.append("st " + (";".join(mems) if mems else "~"))
+
+
 def tie_compare(ctx, drv_lines, drv_meta, out):
     bad = []
     for line, meta, o in zip(drv_lines, drv_meta, out):
+        if meta.get("kind") == "struct" and "error" not in meta:
+            m = re.match(r"^C ?(.*)#F ?(.*)$", o)
+            if not m:
+                bad.append({"function": meta["function"], "lib": meta["lib"], "what": "driver: " + o, "request": line})
+            elif m.group(2).split() != meta["fact"] or (meta["cact"] is not None and m.group(1).split() != meta["cact"]):
+                bad.append({"function": meta["function"], "lib": meta["lib"], "model_C": m.group(1).split(), "code_C": meta["cact"],
+                            "model_F": m.group(2).split(), "code_F": meta["fact"], "request": line})
+            continue
         if "error" in meta:
             bad.append({"function": meta["function"], "lib": meta["lib"], "what": meta["error"]})
             continue
@@ -412,6 +516,59 @@ def user_proto(decl):
             "text": " ".join(s.split()), "file": "<yaml decl>"}
 
 
+def yaml_types(text):
+    """Types the library description itself declares: `typedef int TypeID` and `struct X {...}` (inline or with a
+    declarations list).  They are the reference for C types the generated code only names."""
+    import yaml
+    structs, typedefs = {}, {}
+    try:
+        doc = yaml.safe_load(text)
+    except Exception:
+        return structs, typedefs
+
+    def walk(decls):
+        for item in decls or []:
+            if not isinstance(item, dict):
+                continue
+            s = strip_attrs(str(item.get("decl", ""))).strip()
+            try:
+                if s.startswith("typedef "):
+                    p = ip.parse_c_param(s[8:].rstrip("; "))
+                    if p and p["name"] and p["ptr"] == 0 and not p["array"] and p["base"][0] != "funptr":
+                        typedefs[p["name"]] = p["base"]
+                elif re.match(r"^struct\s+\w+", s):
+                    if "{" in s:
+                        structs.update(ip.parse_c_structs(s if s.rstrip().endswith(";") else s + ";"))
+                    else:
+                        name = s.split()[1]
+                        fields = []
+                        for sub in item.get("declarations") or []:
+                            fs = strip_attrs(str(sub.get("decl", ""))).strip().rstrip(";")
+                            if fs:
+                                fields.append(ip.parse_c_param(fs))
+                        structs[name] = fields
+                        continue
+            except ip.ParseError:
+                pass
+            walk(item.get("declarations"))
+    walk((doc or {}).get("declarations") if isinstance(doc, dict) else None)
+    return structs, typedefs
+
+
+def resolve_typedefs(p, typedefs, depth=0):
+    """Replace a typedef name declared in the YAML by its underlying type (in place)."""
+    if p is None or depth > 4:
+        return
+    b = p.get("base")
+    if b and b[0] == "struct" and b[1] in typedefs:
+        p["base"] = typedefs[b[1]]
+        resolve_typedefs(p, typedefs, depth + 1)
+    for q in p.get("fp_params") or []:
+        resolve_typedefs(q, typedefs, depth + 1)
+    if p.get("fp_ret"):
+        resolve_typedefs(p["fp_ret"], typedefs, depth + 1)
+
+
 def read_outputs(d, user_dirs=()):
     protos, defs, structs, defines = {}, {}, {}, {}
     for fn in sorted(os.listdir(d)):
@@ -460,6 +617,21 @@ def oracle_library(ctx, res, replay, stats):
         except Exception:
             pass
     protos, defs, structs, defines, uprotos, modules = read_outputs(d, res.get("user_dirs", ()))
+    ystructs, ytypedefs = yaml_types(res.get("yaml_text", ""))
+    for k, v in ystructs.items():
+        structs.setdefault(k, v)
+    for tab in (protos, defs, uprotos):
+        for v in tab.values():
+            if "error" not in v:
+                resolve_typedefs(v["ret"], ytypedefs)
+                for q in v["params"]:
+                    resolve_typedefs(q, ytypedefs)
+    for v in structs.values():
+        if isinstance(v, list):
+            for q in v:
+                resolve_typedefs(q, ytypedefs)
+    stats["yaml_structs"] = stats.get("yaml_structs", 0) + len(ystructs)
+    stats["yaml_typedefs"] = stats.get("yaml_typedefs", 0) + len(ytypedefs)
     lib = res["tag"]
     alltypes = {}
     for fn, (ifaces, types, params) in modules.items():
@@ -484,6 +656,9 @@ def oracle_library(ctx, res, replay, stats):
                 src = "yaml"
                 try:
                     pr = user_proto(user_decl[name])
+                    resolve_typedefs(pr["ret"], ytypedefs)
+                    for q in pr["params"]:
+                        resolve_typedefs(q, ytypedefs)
                 except ip.ParseError as e:
                     stats["unresolved"] += 1
                     stats["unresolved_names"].add("%s:%s user declaration not parsed: %s" % (lib, name, e))
@@ -597,22 +772,75 @@ def compiler_checks(ctx, res, replay, stats):
     d = res["outdir"]
     lib = res["tag"]
     protos, defs, structs, defines, uprotos, modules = read_outputs(d, res.get("user_dirs", ()))
-    # gfortran's own C view of every module
+    ystructs, ytypedefs = yaml_types(res.get("yaml_text", ""))
+    for tab in (protos, defs):
+        for v in tab.values():
+            if "error" not in v:
+                resolve_typedefs(v["ret"], ytypedefs)
+                for q in v["params"]:
+                    resolve_typedefs(q, ytypedefs)
+    # gfortran's own C view of every module; modules of this library that use each other are processed in
+    # dependency order (gfortran -fsyntax-only writes the .mod files the later ones need)
     ffiles = sorted(modules)
-    pending, done = list(ffiles), set()
-    for _round in range(3):
-        nxt = []
-        for fn in pending:
-            p = subprocess.run(["gfortran", "-ffree-form", "-ffree-line-length-none", "-cpp", "-fc-prototypes", "-fsyntax-only", fn],
-                               cwd=d, stdout=subprocess.PIPE, stderr=subprocess.PIPE, text=True, timeout=300)
-            if p.returncode != 0 or "typedef" not in p.stdout and "(" not in p.stdout:
-                nxt.append((fn, p.stderr[-300:]))
-                continue
+    defines_mod, uses = {}, {}
+    for fn in ffiles:
+        txt = open(os.path.join(d, fn)).read()
+        for m in re.finditer(r"^\s*module\s+(?!procedure\b)(\w+)\s*$", txt, re.M | re.I):
+            defines_mod[m.group(1).lower()] = fn
+        uses[fn] = {m.group(1).lower() for m in re.finditer(r"^\s*use\s*(?:,\s*\w+\s*::)?\s*(\w+)", txt, re.M | re.I)}
+    order, seen = [], set()
+
+    def visit(fn, stack=()):
+        if fn in seen or fn in stack:
+            return
+        for u in sorted(uses.get(fn, ())):
+            dep = defines_mod.get(u)
+            if dep and dep != fn:
+                visit(dep, stack + (fn,))
+        seen.add(fn)
+        order.append(fn)
+    for fn in ffiles:
+        visit(fn)
+    done, pending, reduced_ok = set(), [], set()
+    reasons = stats.setdefault("gfortran_skip_reasons", [])
+    for fn in order:
+        p = subprocess.run(["gfortran", "-ffree-form", "-ffree-line-length-none", "-cpp", "-fc-prototypes", "-fsyntax-only", fn],
+                           cwd=d, stdout=subprocess.PIPE, stderr=subprocess.PIPE, text=True, timeout=300)
+        body = p.stdout.split("#endif", 1)[-1] if "#endif" in p.stdout else ""
+
+        def usable(q):
+            # the prototype printer itself gives up on type(*) and dummy procedures ("Cannot convert ... to
+            # interoperable type") but prints the other procedures
+            errs = re.findall(r"Error: ([^\n]*)", q.stderr)
+            return q.returncode == 0 or (errs and all(e.startswith("Cannot convert") for e in errs))
+        if not usable(p):
+            body = ""
+        if not usable(p):
+            # a wrapper body gfortran rejects (not this property): retry on the specification part alone
+            red = "c04red_" + os.path.splitext(fn)[0] + ".F90"
+            open(os.path.join(d, red), "w").write(reduce_module(open(os.path.join(d, fn)).read()))
+            p2 = subprocess.run(["gfortran", "-ffree-form", "-ffree-line-length-none", "-cpp", "-fc-prototypes", "-fsyntax-only", red],
+                                cwd=d, stdout=subprocess.PIPE, stderr=subprocess.PIPE, text=True, timeout=300)
+            body2 = p2.stdout.split("#endif", 1)[-1] if "#endif" in p2.stdout else ""
+            if usable(p2):
+                p, body = p2, body2
+                stats["gfortran_reduced"] = stats.get("gfortran_reduced", 0) + 1
+                reduced_ok.add(fn)
+        if not usable(p):
+            pending.append(fn)
+            m = re.search(r"(?:Fatal )?Error: ([^\n]*)", p.stderr)
+            why = m.group(1) if m else p.stderr[-160:]
+            ext = [u for u in uses.get(fn, ()) if u not in defines_mod and u not in ("iso_c_binding", "iso_fortran_env")]
+            if "Cannot open module file" in why and ext:
+                why = "uses module(s) of another library: %s" % ", ".join(sorted(ext))
+            reasons.append("%s/%s: %s" % (lib, fn, why[:160]))
+            continue
+        if True:
             done.add(fn)
             stats["gfortran_modules"] += 1
             text = re.sub(r"__GFORTRAN_(FLOAT|DOUBLE|LONG_DOUBLE)_COMPLEX",
                           lambda m: {"FLOAT": "float complex", "DOUBLE": "double complex", "LONG_DOUBLE": "long double complex"}[m.group(1)],
-                          p.stdout.split("#endif", 1)[-1])
+                          body)
             gp, gs, _ = ip.parse_c_header(text)
             gstructs = {k.lower(): v for k, v in gs.items()}
             for name, g in gp.items():
@@ -633,13 +861,6 @@ def compiler_checks(ctx, res, replay, stats):
                                  dict(rp, position=k + 1))
                 if not c_same(real["ret"], g["ret"], structs, gstructs, ret=True):
                     ctx.fail("c04:gfortran-result:%s:%s" % (lib, name), "result of %s: prototype `%s`, gfortran's view `%s`" % (name, real["text"], g["text"]), rp)
-        pending = [fn for fn, _ in nxt]
-        if not pending:
-            break
-        # modules that use other modules: compile the finished ones to get .mod files
-        for fn in done:
-            subprocess.run(["gfortran", "-ffree-form", "-ffree-line-length-none", "-cpp", "-fsyntax-only", fn], cwd=d,
-                           stdout=subprocess.PIPE, stderr=subprocess.PIPE, text=True, timeout=300)
     stats["gfortran_skipped"] += len(pending)
     # struct layout: sizeof/offsetof of generated C structs equal gfortran's storage layout (c_sizeof)
     alltypes = {}
@@ -664,15 +885,22 @@ def compiler_checks(ctx, res, replay, stats):
         for m in mods:
             fsrc.append("use %s" % m)
         for i, (cn, tn) in enumerate(pairs):
-            fsrc.append("type(%s) :: v%d" % (tn, i))
+            fsrc.append("type(%s), target :: v%d" % (tn, i))
         for i, (cn, tn) in enumerate(pairs):
             fsrc.append("print '(a,1x,i0)', '%s', c_sizeof(v%d)" % (cn, i))
+            cfl, ffl = structs.get(cn), alltypes[tn]["fields"]
+            if isinstance(cfl, list) and len(cfl) == len(ffl):
+                for cf, (fnm, _fc) in zip(cfl, ffl):
+                    if cf.get("name"):
+                        fsrc.append("print '(a,1x,i0)', '%s.%s', transfer(c_loc(v%d%%%s), 0_c_intptr_t) - transfer(c_loc(v%d), 0_c_intptr_t)" % (
+                            cn, cf["name"], i, fnm, i))
         fsrc.append("end program p")
         open(os.path.join(d, "c04size.f90"), "w").write("\n".join(fsrc) + "\n")
         cmd = ["gfortran", "-ffree-form", "-ffree-line-length-none", "-cpp", "-c"]
         okc = True
-        for fn in sorted(done):
-            p = subprocess.run(cmd + [fn], cwd=d, stdout=subprocess.PIPE, stderr=subprocess.PIPE, text=True, timeout=300)
+        for fn in [f for f in order if f in done]:
+            src = ("c04red_" + os.path.splitext(fn)[0] + ".F90") if fn in reduced_ok else fn
+            p = subprocess.run(cmd + ["-fsyntax-only", src], cwd=d, stdout=subprocess.PIPE, stderr=subprocess.PIPE, text=True, timeout=300)
             okc = okc and p.returncode == 0
         if okc:
             # only the .mod files are needed (types); the module objects reference the C wrappers
@@ -695,17 +923,69 @@ def compiler_checks(ctx, res, replay, stats):
                     if cn in fsizes:
                         csrc.append("_Static_assert(sizeof(%s) == %s, \"sizeof %s\");" % (cn, fsizes[cn], cn))
                         n += 1
+                    for key, val in fsizes.items():
+                        if key.startswith(cn + "."):
+                            csrc.append("_Static_assert(offsetof(%s, %s) == %s, \"sizeof %s\");" % (cn, key.split(".", 1)[1], val, key))
+                            n += 1
                 open(os.path.join(d, "c04size.c"), "w").write("\n".join(csrc) + "\n")
                 p = subprocess.run(["gcc", "-std=c11", "-fsyntax-only", "c04size.c"], cwd=d, stdout=subprocess.PIPE, stderr=subprocess.PIPE, text=True, timeout=120)
                 if p.returncode == 0:
                     stats["static_asserts"] += n
                 else:
-                    m = re.search(r"static assertion failed: \"sizeof (\w+)\"", p.stderr)
+                    m = re.search(r"static assertion failed: \"sizeof ([\w.]+)\"", p.stderr)
                     if m:
-                        ctx.fail("c04:sizeof:%s:%s" % (lib, m.group(1)), "sizeof(%s) in C differs from c_sizeof of the Fortran derived type" % m.group(1),
-                                 dict(replay, struct=m.group(1)))
+                        ctx.fail("c04:sizeof:%s:%s" % (lib, m.group(1)), "sizeof/offsetof of %s in C differs from the layout gfortran gives "
+                                 "the Fortran derived type" % m.group(1), dict(replay, struct=m.group(1)))
                     else:
                         stats["static_assert_skipped"] += 1
+
+
+def reduce_module(text):
+    """Keep the specification part of a generated module that matters for interoperability (use statements, derived
+    types without their type-bound part, interface bodies); drop the module procedures (`contains` part) and the generic
+    interfaces that name them.  Used only when gfortran cannot compile the whole module because of a wrapper body."""
+    out, lines = [], text.split("\n")
+    i, n = 0, len(lines)
+    in_type = False
+    while i < n:
+        ln = lines[i]
+        low = ln.strip().lower()
+        if in_type:
+            if low == "contains":
+                while i < n and not re.match(r"^end\s*type\b", lines[i].strip().lower()):
+                    i += 1
+                continue
+            if re.match(r"^end\s*type\b", low):
+                in_type = False
+            out.append(ln)
+            i += 1
+            continue
+        if re.match(r"^type\b(?!\s*\()", low):
+            in_type = True
+            out.append(ln)
+            i += 1
+            continue
+        if low == "contains":
+            while i < n and not re.match(r"^end\s*module\b", lines[i].strip().lower()):
+                i += 1
+            continue
+        if re.match(r"^interface\s+\S", low):
+            j = i
+            while j < n and not re.match(r"^end\s*interface\b", lines[j].strip().lower()):
+                j += 1
+            block = lines[i:j + 1]
+            if any("module procedure" in b.lower() for b in block):
+                i = j + 1
+                continue
+            out.extend(block)
+            i = j + 1
+            continue
+        if re.match(r"^(public|private)\s*::", low) and "operator" in low:
+            i += 1
+            continue
+        out.append(ln)
+        i += 1
+    return "\n".join(out)
 
 
 def c_same(a, b, structs, gstructs, ret=False):
@@ -825,7 +1105,16 @@ def extra_decls(r, language, k):
     d.append({"decl": "C04pt%d %s(int i)" % (k, nm("p"))})
     r.shuffle(d)
     # the struct must be declared before its first use
-    return [{"decl": "struct C04pt%d { int a; double b; %s c; };" % (k, r.choice(["long", "float", "short"]))}] + d
+    members = ["bool flag;", "char tag;", "char name[%d];" % r.randrange(2, 30), "%s grid[%d][%d];" % (t2(), r.randrange(2, 4), r.randrange(2, 5)),
+               "%s *p;" % t2(), "const %s *q;" % t2(), "%s *tab[%d];" % (t2(), r.randrange(2, 5)), "C04in%d inner;" % k, "C04in%d *pin;" % k,
+               "%s i8;" % r.choice(["int8_t", "int16_t", "uint32_t", "int64_t"]), "size_t n;", "%s v[%d];" % (t2(), r.randrange(2, 6)),
+               "long long ll;", "unsigned short us;"]
+    r.shuffle(members)
+    members = members[: r.randrange(4, len(members) + 1)]
+    return [{"decl": "struct C04in%d { %s a; double b; };" % (k, r.choice(["int", "short", "char"]))},
+            {"decl": "struct C04pt%d { int a; double b; %s c; };" % (k, r.choice(["long", "float", "short"]))},
+            {"decl": "struct C04big%d { %s };" % (k, " ".join(members))},
+            {"decl": "void c04usebig%d(C04big%d *s +intent(inout))" % (k, k)}] + d
 
 
 def gen_libraries(r, n):
@@ -901,7 +1190,13 @@ def process(ctx, tag, yaml_path, options, language, wv, replay, stats, drv_lines
         return
     res["user_dirs"] = user_dirs
     try:
+        res["yaml_text"] = open(yaml_path).read()
+    except OSError:
+        res["yaml_text"] = ""
+    try:
+        res["language_cxx"] = bool(glob.glob(os.path.join(res["outdir"], "*.cpp")) or glob.glob(os.path.join(res["outdir"], "*.cc")))
         tie_library(ctx, res, replay, drv_lines, drv_meta)
+        tie_structs(ctx, res, replay, drv_lines, drv_meta)
         oracle_library(ctx, res, replay, stats)
         if thorough:
             compiler_checks(ctx, res, replay, stats)
@@ -939,19 +1234,30 @@ def run(ctx):
     ctx.cov["trusted_base"] = [
         "Lean 4.33.0 kernel; axioms within {propext, Classical.choice, Quot.sound}",
         "tools/interop_parse.py: LP64 size tables (validated against gcc sizeof / gfortran storage_size in the thorough tier), "
-        "parsers for generated C prototypes, structs and Fortran interface bodies, Python statement of the 18.3 table",
-        "tools/extract_interop.py: classification of c_arg_decl / f_arg_decl templates, helper struct and type texts",
-        "hand-written model Model/Interop.lean of build_proto_list / build_arg_list_interface (validated per call)",
+        "parsers for generated C prototypes, definitions, structs, function-pointer types and Fortran interface bodies / derived types, "
+        "Python statement of the 18.3 table",
+        "tools/extract_interop.py: classification of c_arg_decl / f_arg_decl / f_result_decl templates, helper struct and type texts, "
+        "interface signature of an entry",
+        "hand-written models Model/Interop.lean of build_proto_list / build_arg_list_interface / wrap_struct (validated per call on "
+        "corpus + generated libraries) and of dump_abstract_interfaces (oracle only)",
+        "gcc 12 / gfortran 12 (thorough tier cross-checks)",
     ]
     ctx.cov["rule"] = ("tie: one evaluation per wrapped function (model protoList/ifaceList vs the declarations the two builders "
-                       "appended); oracle: one per bind(C) interface body, struct pair and type-code name; non-trivial = distinct "
-                       "(buf_arg kind, statement entry) reached and distinct (C class, pointer depth, Fortran class, value, shape) pairs")
+                       "appended; same (argument, buf_args, entry) sequence on both sides) and per wrapped struct (structC/structF vs the "
+                       "emitted struct / derived type); oracle: one per bind(C) interface body, callback pair, struct pair and type-code "
+                       "name, thorough also one per prototype seen by gfortran -fc-prototypes; non-trivial = distinct (buf_arg kind, "
+                       "statement entry) reached, distinct (C class, pointer depth, Fortran class, value, shape) pairs, struct sizes, "
+                       "callback positions")
     ctx.assumptions += [
         "interoperability is decided under LP64 (gcc/gfortran x86-64); signedness is not distinguished",
         "a user-written +value on a pointer argument and a user-overridden C_prototype / F_C_arguments are outside the admitted inputs",
-        "C functions of the wrapped library that are bound directly (language c) are taken to have the signature written in the YAML decl",
+        "C functions of the wrapped library that are bound directly (language c) are taken to have the signature written in the YAML "
+        "decl; typedefs and structs declared in the YAML are taken as declared there",
         "abstract interfaces of callbacks: compared with the C function-pointer type by the oracle on every emitted interface; the "
         "Lean theorem callback_interop is about the model of dump_abstract_interfaces, which has no per-call tie (oracle only)",
+        "a scalar char result with a deref attribute is rejected by Shroud (exception in result_as_arg_paths_agree)",
+        "types defined only in another library (forward.yaml: tutorial / struct types, example.yaml: SIDRE_SidreLength) are not "
+        "resolved; they are listed under notes.oracle.unresolved_names",
     ]
     stats = {"libraries": 0, "interfaces": 0, "pairs": 0, "unresolved": 0, "unresolved_names": set(), "abstract": 0,
              "struct_pairs": 0, "defines": 0, "rejected": [], "by_source": {}, "gfortran_modules": 0, "gfortran_protos": 0,
@@ -1002,7 +1308,7 @@ def run(ctx):
             validate_lp64(ctx)
     finally:
         common.rmtree(work)
-    stats["unresolved_names"] = sorted(stats["unresolved_names"])[:12]
+    stats["unresolved_names"] = sorted(stats["unresolved_names"])[:60]
     ctx.note("oracle", stats)
     for s in stats["rejected"][:3]:
         ctx.sample({"rejected": s})
